@@ -17,12 +17,15 @@ from mc import refsim as RS
 PROPERTY = "C27"
 LEVEL = "exploration"
 TECHNIQUE = "bounded exhaustive circuit enumeration, differential comparison of each simulator device against default.qubit"
-LEVEL_TEXT = ("Every word of length <=3 (quick 2) over a 12-letter gate alphabet (13 Clifford letters for default.clifford) on 3 wires x "
-              "2-5 wire labellings x 2 device wire orders x all supported single measurements and all pairs over a 4-5 letter subset: "
-              "default.mixed, reference.qubit, default.tensor (mps/tn), default.clifford agree with default.qubit at 1e-9 and null.qubit "
-              "returns the same shapes.")
-LEVEL_NOTE = ("default.qubit is the oracle (tied to an independent reference by C26). Not decided: default.tensor with insufficient bond "
-              "dimension (approximation), finite shots, >3 wires, devices' gradient paths, noisy circuits on default.mixed/clifford (C28).")
+LEVEL_TEXT = ("Every word of length <=3 (quick 2) over a 12-letter gate alphabet plus device-specific letters (16 Clifford letters for "
+              "default.clifford) on 3 wires x up to 5 wire labellings x 2 device wire orders x all 25 supported single measurements and "
+              "36 measurement pairs: default.mixed, reference.qubit, default.tensor (mps/tn) and default.clifford agree with "
+              "default.qubit on the same tape at 1e-9 (clifford 5e-7: stim is single precision) and null.qubit returns the same shapes.")
+LEVEL_NOTE = ("default.qubit is the oracle (tied to an independent reference by C26). Three families: main (an Identity on every device "
+              "wire, order of appearance = device order), idle (device / measured wires without operation), perm (permuted integer "
+              "device wires). default.clifford states are compared up to global phase. Not decided: default.tensor with insufficient "
+              "bond dimension (approximation), finite shots, >4 wires, gradient paths, noisy circuits (C28). Nine genuine defect "
+              "classes are recorded in known_findings/C27.json.")
 DESIGN_REF = "5.5 C27"
 START = "fork"
 PARALLEL = True
